@@ -198,6 +198,8 @@ func readFaultProbe(db *leveldb.DB, stor *vstor.Stor, bs []*bstat, r *vlib.RNG) 
 func runScenario(sc *Scenario) (out outcome) {
 	out.stats = map[string]int{}
 	stor := vstor.New(true)
+	// a closed DB stays reachable for about a second (mpoolDrain): do not let it pin the op log and file bytes
+	defer stor.Discard()
 	stor.NoData = true
 	o := sc.W.Cfg.Options()
 	db, err := leveldb.Open(stor, o)
